@@ -607,7 +607,8 @@ def e18(ctx: Ctx):
     inline = set()
     for cls in py.classes:
         r = py.resolve_method(cls, "basic09_text")
-        if r is not None and r[0].name == cls and ast_contains(r[1], "isinstance(self._statements, BasicGoto) and self._statements.implicit"):
+        # (the test may sit in basic09_text itself or in a helper method of the class that it calls)
+        if r is not None and r[0].name == cls and any(ast_contains(m_, "isinstance(self._statements, BasicGoto) and self._statements.implicit") for m_ in [r[1]] + [mm for nn, mm in py.classes[cls].methods.items() if any(isinstance(c_, ast.Attribute) and c_.attr == nn for c_ in ast.walk(r[1]))]):
             inline.add(cls)
     ctx.need(inline, "BasicIf.basic09_text", "no class prints an implicit jump inline after THEN")
     seen: Set[str] = set()
